@@ -567,6 +567,8 @@ pub fn cases(seed: u64, tier: Tier) -> Cases {
             }
         }
     }
+    // generated enums and unions (listed and unlisted values, both member orders) viewed through an Any
+    crate::ops::c10::via_any_cases(&mut cs);
     cs
 }
 
